@@ -411,6 +411,7 @@ type c08Tree struct {
 	Dirs  c08Dirs    `json:"dirs"`
 	Own   []c08Res   `json:"own"`
 	Bases []*c08Tree `json:"bases,omitempty"`
+	Crd   string     `json:"crd,omitempty"` // content of crd.json, declared through `crds:` (c08_crds.go); never sent to the model
 }
 
 var c08CustomFields = []c08fsSpec{
@@ -430,6 +431,10 @@ var c08CustomFields = []c08fsSpec{
 	{Group: "example.com", Kind: "StatefulSet", Path: "spec/template/metadata/labels", Create: true},
 	{Group: "batch", Version: "v2", Kind: "Job", Path: "spec/template/metadata/labels", Create: true},
 	{Group: "example.com", Kind: "StatefulSet", Path: "spec/selector/matchLabels", Create: true},
+	// creating twins of non-creating default rows: a null value that an earlier non-creating row passed must come out
+	// with the labels of the creating directive only (regression for R-setentry-null-scalar, corpus builds[4])
+	{Kind: "NetworkPolicy", Path: "spec/podSelector/matchLabels", Create: true},
+	{Kind: "Deployment", Path: "spec/selector/matchLabels", Create: true},
 }
 
 func genDirs(rng *Rng, allowFields bool) c08Dirs {
@@ -522,6 +527,9 @@ func kustomizationYaml(t *c08Tree) string {
 			fmt.Fprintf(&b, "- %s.yaml\n", r.Name)
 		}
 	}
+	if t.Crd != "" {
+		b.WriteString("crds:\n- crd.json\n")
+	}
 	d := t.Dirs
 	if len(d.CommonLabels) > 0 {
 		b.WriteString("commonLabels:\n")
@@ -575,6 +583,11 @@ func writeTree(fs filesys.FileSystem, dir string, t *c08Tree) error {
 	}
 	if err := fs.WriteFile(dir+"/kustomization.yaml", []byte(kustomizationYaml(t))); err != nil {
 		return err
+	}
+	if t.Crd != "" {
+		if err := fs.WriteFile(dir+"/crd.json", []byte(t.Crd)); err != nil {
+			return err
+		}
 	}
 	for _, r := range t.Own {
 		if err := fs.WriteFile(dir+"/"+r.Name+".yaml", []byte(r.Yaml)); err != nil {
@@ -672,6 +685,9 @@ func coqDirs(d c08Dirs) string {
 }
 
 func c08coqLayer(t *c08Tree) (string, bool) {
+	if t.Crd != "" {
+		return "", false // the CRD loader is outside the model
+	}
 	own := []string{}
 	for _, r := range t.Own {
 		n, err := kyaml.Parse(r.Yaml)
@@ -1050,6 +1066,16 @@ func oracles08(r *Run, t *c08Tree, flat []flatRes, bo buildOut) {
 			continue
 		}
 		ios = append(ios, io{fr, in.YNode(), out.YNode()})
+		var dirty []string
+		r.Count("oracle", "parse_clean")
+		if scalarsWithContent(in.YNode(), "", &dirty); len(dirty) > 0 {
+			report("parse_clean", "C08/parse_clean", "a parsed document has a scalar node with children: "+strings.Join(dirty, ", "))
+			continue
+		}
+		r.Count("oracle", "no_hidden_content")
+		if scalarsWithContent(out.YNode(), "", &dirty); len(dirty) > 0 {
+			report("no_hidden_content", c08HiddenClass, fmt.Sprintf("%s %s: after the build a scalar node carries hidden child nodes: %s", fr.Res.Kind, fr.Res.Name, strings.Join(dirty, ", ")))
+		}
 	}
 	// Only one failure shape of own_selector / selects_preserved is a listed finding (documented behaviour): the
 	// broken key was written by a labels entry WITHOUT includeSelectors although a selector uses it - either the
@@ -1240,22 +1266,42 @@ func genFilterCase(rng *Rng) c08FilterCase {
 			f.Kind, f.Group, f.Version = kind, "", ""
 			f.Create = rng.Bool()
 		}
-		// Domain restriction: rows whose paths are equal or prefix-related carry the same create flag. A
-		// create=false row that ends at a null scalar appends the entry to the Content of that scalar
-		// (invisible); a later create=true row for the same path - or one passing through it - retags the node
-		// as a mapping and the hidden entries surface. Hidden content of a scalar is not representable in the
-		// model's node type (Yaml/Node.v); the default tables never contain such a pair of rows for one object
-		// and FsSlice.MergeOne rejects the equal-path case ("conflicting fieldspecs"). The theorems exclude it
-		// through rows_ok (no matching row may extend the read path) and uniform_create.
-		for _, g := range c.Fss {
-			if g.Path == f.Path || strings.HasPrefix(f.Path, g.Path+"/") || strings.HasPrefix(g.Path, f.Path+"/") {
-				f.Create = g.Create
-			}
-		}
+		// No restriction on the create flags of equal / prefix-related paths any more: since the repair
+		// R-setentry-null-scalar a non-creating row that ends at a null value leaves it alone (it used to hide the
+		// entry in the Content of the null scalar, surfacing under a later creating row - not representable in the
+		// model's node type; former domain restriction "uniform create flag", former hypothesis uniform_create).
 		c.Fss = append(c.Fss, f)
 	}
 	return c
 }
+
+// scalarsWithContent lists the scalar nodes below n that carry child nodes. go-yaml never produces such a
+// node (obligation parse_clean, checked on every parsed input); the encoder ignores the children, so they are
+// hidden state: invisible in the output, alive in memory, surfacing when the node is retagged as a mapping.
+// This is the reason for the model's domain restriction (uniform_create): Yaml/Node.v scalars have no children,
+// i.e. the abstraction yaml.Node -> node is lossless exactly on nodes for which this list is empty.
+func scalarsWithContent(n *kyaml.Node, path string, acc *[]string) {
+	if n == nil {
+		return
+	}
+	switch n.Kind {
+	case kyaml.ScalarNode:
+		if len(n.Content) > 0 {
+			*acc = append(*acc, fmt.Sprintf("%s (tag %s, %d hidden nodes)", path, n.Tag, len(n.Content)))
+		}
+	case kyaml.MappingNode:
+		for i := 0; i+1 < len(n.Content); i += 2 {
+			scalarsWithContent(n.Content[i], path+"/"+n.Content[i].Value+"#key", acc)
+			scalarsWithContent(n.Content[i+1], path+"/"+n.Content[i].Value, acc)
+		}
+	default:
+		for i, c := range n.Content {
+			scalarsWithContent(c, fmt.Sprintf("%s/%d", path, i), acc)
+		}
+	}
+}
+
+const c08HiddenClass = "C08/no_hidden_content/entries-in-null-scalar"
 
 func toFsSlice(l []c08fsSpec) types.FsSlice {
 	out := types.FsSlice{}
@@ -1301,7 +1347,20 @@ func runFilterCase(r *Run, c c08FilterCase) {
 		r.Meta.Skipped++
 		return
 	}
+	r.Count("oracle", "parse_clean")
+	var dirty []string
+	if scalarsWithContent(orig.YNode(), "", &dirty); len(dirty) > 0 {
+		r.Violation(OracleViolation{Law: "parse_clean", Class: "C08/parse_clean", Detail: "a parsed document has a scalar node with children: " + strings.Join(dirty, ", "),
+			Replay: map[string]interface{}{"filter": c}})
+	}
 	cls, doc, _ := execFilter(c)
+	if cls == ClsOk {
+		r.Count("oracle", "no_hidden_content")
+		if scalarsWithContent(doc.YNode(), "", &dirty); len(dirty) > 0 {
+			r.Violation(OracleViolation{Law: "no_hidden_content", Class: c08HiddenClass,
+				Detail: "after the filter a scalar node carries hidden child nodes: " + strings.Join(dirty, ", "), Replay: map[string]interface{}{"filter": c}})
+		}
+	}
 	r.Count("filter_class", cls)
 	r.Count("filter_keys", fmt.Sprint(len(c.Labels)))
 	after := `(Scalar TNone SPlain "")`
@@ -1424,7 +1483,7 @@ func runBuildCase(r *Run, t *c08Tree, toModel bool) {
 }
 
 func stripFields(t *c08Tree) (*c08Tree, bool) {
-	out := &c08Tree{Own: t.Own, Dirs: t.Dirs}
+	out := &c08Tree{Own: t.Own, Dirs: t.Dirs, Crd: t.Crd}
 	had := false
 	out.Dirs.Labels = nil
 	for _, e := range t.Dirs.Labels {
@@ -1504,7 +1563,7 @@ func oracleFields08(r *Run, t *c08Tree, flat []flatRes, bo buildOut) {
 }
 
 func stripDirs(t *c08Tree) *c08Tree {
-	out := &c08Tree{Own: t.Own}
+	out := &c08Tree{Own: t.Own, Crd: t.Crd}
 	for _, b := range t.Bases {
 		out.Bases = append(out.Bases, stripDirs(b))
 	}
@@ -1594,9 +1653,9 @@ func configBuild08(r *Run, rng *Rng) {
 
 func runC08(r *Run, rng *Rng, tier string) error {
 	rng = rng.Fork() // decorrelate consecutive seeds (NewRng streams of s and s+1 overlap)
-	nBuild, nFilter, nSearch := 260, 500, 500
+	nBuild, nFilter, nSearch, nCrd := 260, 500, 500, 150
 	if tier == "thorough" {
-		nBuild, nFilter, nSearch = 2200, 4500, 9000
+		nBuild, nFilter, nSearch, nCrd = 2200, 4500, 9000, 2500
 	}
 	r.Meta.Rule = "builds: kustomization trees of depth 1-3 (0-2 bases per layer, 0-3 resources per layer) over Deployment/StatefulSet/DaemonSet/ReplicaSet/Job/CronJob/Pod/" +
 		"ReplicationController/Service/NetworkPolicy/PodDisruptionBudget/ConfigMap/custom kind, label maps present/absent/{}/null, rare odd shapes; directives commonLabels, " +
@@ -1628,6 +1687,10 @@ func runC08(r *Run, rng *Rng, tier string) error {
 		cnt := 0
 		runBuildCase(r, c08genTree(g, 1+g.Intn(3), &cnt, true), false)
 	}
+	// `crds:` builds (custom kinds declared through OpenAPI extensions), implementation-level laws only: c08_crds.go
+	for i := 0; i < nCrd; i++ {
+		crdBuild08(r, genCrdCase(rng.Fork()))
+	}
 	return nil
 }
 
@@ -1645,8 +1708,30 @@ func replayC08(path string) (bool, string, error) {
 	var wrap struct {
 		Build  *c08Tree        `json:"build"`
 		Filter *c08FilterCase  `json:"filter"`
+		Crd    *c08CrdCase     `json:"crd"`
 	}
 	_ = json.Unmarshal(rp.Case, &wrap)
+	if wrap.Crd == nil {
+		var cc c08CrdCase
+		if err := json.Unmarshal(rp.Case, &cc); err == nil && cc.Tree != nil && cc.Kind != "" {
+			wrap.Crd = &cc
+		}
+	}
+	if wrap.Crd != nil && wrap.Crd.Tree != nil {
+		rr := NewRun("C08", "replay", 0, "", "")
+		crdBuild08(rr, wrap.Crd)
+		bo := runBuild(wrap.Crd.Tree)
+		var b strings.Builder
+		fmt.Fprintf(&b, "class=%s msg=%q\n", bo.cls, bo.msg)
+		for name, o := range bo.outs {
+			s, _ := o.String()
+			fmt.Fprintf(&b, "--- %s\n%s", name, s)
+		}
+		for _, v := range rr.Meta.Violations {
+			fmt.Fprintf(&b, "LAW %s class=%s: %s\n", v.Law, v.Class, v.Detail)
+		}
+		return len(rr.Meta.Violations) > 0 || bo.cls == ClsPanic, b.String(), nil
+	}
 	t := wrap.Build
 	if t == nil && wrap.Filter == nil {
 		var tt c08Tree
@@ -1656,7 +1741,15 @@ func replayC08(path string) (bool, string, error) {
 	}
 	if wrap.Filter != nil {
 		cls, doc, msg := execFilter(*wrap.Filter)
-		return cls == ClsPanic, fmt.Sprintf("class=%s msg=%q after=%s", cls, msg, docString(doc)), nil
+		var dirty []string
+		if cls == ClsOk {
+			scalarsWithContent(doc.YNode(), "", &dirty)
+		}
+		law := ""
+		if len(dirty) > 0 {
+			law = "\nLAW no_hidden_content class=" + c08HiddenClass + ": " + strings.Join(dirty, ", ")
+		}
+		return cls == ClsPanic || len(dirty) > 0, fmt.Sprintf("class=%s msg=%q after=%s%s", cls, msg, docString(doc), law), nil
 	}
 	if t == nil {
 		return false, "", fmt.Errorf("replay file has neither a build tree nor a filter case")
